@@ -75,7 +75,15 @@ def extract(repo):
     tern = re.search(r"case\s*\(\s*Operator_Precedence::Ternary_Cond\s*\)\s*:(.*?)break\s*;", obody[sw:], re.S)
     tern_calls = [re.sub(r"\s+", "", a) for a in re.findall(r"\bOperator\s*\(([^()]*)\)", tern.group(1))] if tern else []
     tern_colon = bool(tern and re.search(r'if\s*\(\s*Symbol\s*\(\s*":"\s*\)\s*\)', tern.group(1)))
-    return {"levels": [levels[i] for i in range(len(levels))], "kinds": kinds, "prefix": prefix, "prefix_reenters_last": prefix_reenters_last,
+    # --- Equation()
+    ebody = fn_body(src, r"\bbool\s+Equation\s*\(\s*\)\s*")
+    m = re.search(r"for\s*\(\s*const\s+auto\s*&\s*sym\s*:\s*\{(.*?)\}\s*\)\s*\{", ebody, re.S)
+    if not m:
+        raise ValueError("the symbol list of Equation() not found")
+    assign = re.findall(r'SS\{"((?:[^"\\]|\\.)*)"\}', m.group(1))
+    eq_shape = (bool(re.search(r"if\s*\(\s*Operator\s*\(\s*\)\s*\)", ebody)) and bool(re.search(r"if\s*\(\s*!\s*Equation\s*\(\s*\)\s*\)", ebody))
+                and "build_match<eval::Equation_AST_Node<Tracer>>(prev_stack_top, sym.c_str())" in re.sub(r"\s+", " ", ebody))
+    return {"assign": assign, "eq_shape": eq_shape, "levels": [levels[i] for i in range(len(levels))], "kinds": kinds, "prefix": prefix, "prefix_reenters_last": prefix_reenters_last,
             "calls": calls, "pre_switch": pre_switch, "loop": loop, "value_at_prefix": value_at_prefix, "built": built,
             "tern_calls": tern_calls, "tern_colon": tern_colon}
 
@@ -107,6 +115,10 @@ def to_lean(x):
     L.append("def precValueAtPrefixLevel : Bool := %s" % lean_bool(x["value_at_prefix"]))
     L.append("/-- (kind of level, node built by its case of the switch; 0 If, 1 Binary_Operator, 2 Logical_And, 3 Logical_Or, 99 other) -/")
     L.append("def precBuilt : List (Nat × Nat) := [" + ", ".join("(%d, %d)" % (KIND.get(k, 99), NODE.get(v, 99)) for k, v in sorted(x["built"].items(), key=lambda kv: KIND.get(kv[0], 99))) + "]")
+    L.append("/-- the assignment symbols Equation() tries after an operator expression: %s -/" % " ".join(x["assign"]))
+    L.append("def precAssignSymbols : List Nat := [" + ", ".join(str(sym_id(s)) for s in x["assign"]) + "]")
+    L.append("/-- Equation(): `if (Operator())`, then for a matching symbol `Equation()` again (or throw) and an Equation node over everything matched -/")
+    L.append("def precEquationRecursesIntoEquation : Bool := %s" % lean_bool(x["eq_shape"]))
     L.append("end ChaiVerif.Gen")
     return "\n".join(L) + "\n"
 
